@@ -31,7 +31,7 @@ Proof. exact (@znth_in_range jv). Qed.
 Print Assumptions C01_index_in_range.
 
 (* the error types of the source (gen/Tables.v, regenerated on every run) and their kinds are the model's *)
-From LD Require Import TablesProof.
+From LD Require Import TablesErr.
 From LDGen Require Import Tables.
 From Coq Require Import String.
 Theorem C01_error_kinds_match_source :
